@@ -353,3 +353,163 @@ TARGETS.append(
                    ('all((exprs[tx] >= cutoff for tx in _t))', {'_t': 'list str'},
                     '(match o_exprs o with Some rows__ => all_expr rows__ (o_cutoff o) {_t} | None => Err EType end)', 'res bool')],
          stmt_patterns=[('keep.append(_x)', {'_x': 'entry'}, 'keep', '({cur} ++ [{_x}])')]))
+
+# ---------------------------------------------------------------------------------------------- C13 GVF index
+# (10) seqvar/GVFIndex.py iterate_pointer (byte accounting over the lines of a GVF file)      vs Gvf.iterate_pointer
+#      A generator: `yield p` appends to the returned list.  Trusted: a GVFPointer is the model's (key, (start, end));
+#      the pinned `if is_circ_rna: .. else: ..` parses the line with the model's abstract parser P, record.transcript_id
+#      is the abstract key_of (both may raise); bytes.decode('utf-8') is the model's strict decoder Gvf.utf8_decode
+#      (UnicodeDecodeError = Err EUnicode); `cur_key != key` compares a str-or-None with a str.
+TARGETS.append(
+    dict(out='Py_GVFIndex', file='moPepGen/seqvar/GVFIndex.py', cls=None, func='iterate_pointer',
+         coq_name='py_iterate_pointer', imports=['Model.Gvf'],
+         args=[('R', 'Type'), ('P', 'bool -> seq -> res R'), ('key_of', 'R -> res seq'), ('ic', 'bool'), ('lines', 'list seq')],
+         types={'ptr': 'ptr', 'R': 'R', 'str': 'seq', 'bytes': 'seq'},
+         params={'handle': ('lines', 'list bytes'), 'is_circ_rna': ('ic', 'bool')},
+         var_types={'cur_key': 'opt str', 'pointer': 'opt ptr'},
+         yields='ptr',
+         ret_ty='list ptr', res_ty='res (list ptr)', ok='(Ok {})', stub='Err EKey',
+         errors={'AttributeError': '(Err EType)', 'YieldNone': '(Err EType)', 'UnboundLocalError': '(Err EType)'}, raises=[],
+         stmt_rewrites=[('if is_circ_rna:\n    record = circ.io.line_to_circ_model(line)\nelse:\n    record = io.line_to_variant_record(line)',
+                         'record = parse_line__(is_circ_rna, line)')],
+         attr_assign={('ptr', 'end'): '(fst {cur}, (fst (snd {cur}), {val}))'},
+         patterns=[("_l.decode('utf-8')", {'_l': 'bytes'}, '(utf8_decode {_l})', 'res str'),   # UnicodeDecodeError = Err EUnicode
+                   ('len(_l)', {'_l': 'bytes'}, '(Z.of_nat (length {_l}))', 'Z'),
+                   ("_l.startswith('#')", {'_l': 'str'}, '(starts_with_chr HASH {_l})', 'bool'),
+                   ('parse_line__(_c, _l)', {'_c': 'bool', '_l': 'str'}, '(P {_c} {_l})', 'res R'),
+                   ('_r.transcript_id', {'_r': 'R'}, '(key_of {_r})', 'res str'),
+                   ('_a != _b', {'_a': 'opt str', '_b': 'str'},
+                    '(negb (match {_a} with Some k__ => eq_seq k__ {_b} | None => false end))', 'bool'),
+                   ('GVFPointer(handle=handle, key=_k, start=_s, end=_e, is_circ_rna=is_circ_rna)',
+                    {'_k': 'str', '_s': 'Z', '_e': 'Z'}, '({_k}, ({_s}, {_e}))', 'ptr')]))
+
+# (11) gtf/GTFPointer.py iterate_pointer (byte accounting over the lines of a GTF file)            vs GtfPtr.iterate
+#      A generator.  The model's line is (bytes, kind): what a line IS (comment / gene record g / other record of
+#      transcript t) is a tag supplied with the bytes, so line.startswith('#'), GtfIO.line_to_seq_feature,
+#      record.type.lower() == 'gene', record.gene_id / transcript_id are projections of that tag (trusted; the text
+#      parser is C11's correspondence).  Source inference (`if not source: ...`) does not influence the pointers.
+#      A pointer is truthy iff its length end - start is positive (GTFPointer.__len__); `.transcripts.add` is GtfPtr.add_tx.
+GTFP_NONE = '(PErr PyTypeError)'
+TARGETS.append(
+    dict(out='Py_GTFPointer', file='moPepGen/gtf/GTFPointer.py', cls=None, func='iterate_pointer',
+         coq_name='py_gtf_iterate_pointer', imports=['Model.GtfPtr'],
+         args=[('lines', 'list line')],
+         types={'line': 'line', 'dline': 'line', 'rec': 'lkind', 'key': 'Z', 'ptr': 'ptr'},
+         params={'handle': ('lines', 'list line'), 'source': (None, 'opaque')},
+         var_types={'cur_gene_id': 'opt key', 'cur_tx_id': 'opt key', 'cur_gene_pointer': 'opt ptr', 'cur_tx_pointer': 'opt ptr'},
+         yields='ptr',
+         ret_ty='list ptr', res_ty='pyres (list ptr)', ok='(POk {})', stub='PErr PyValueError',
+         errors={'AttributeError': GTFP_NONE, 'YieldNone': GTFP_NONE, 'NoneValue': GTFP_NONE,
+                 'UnboundLocalError': '(PErr PyUnboundLocalError)'}, raises=[],
+         ignore_stmts=[r'^if not source:'],
+         truthy={'opt ptr': '(match {0} with Some p__ => 0 <? p_end p__ - p_start p__ | None => false end)',
+                 'ptr': '(0 <? p_end {0} - p_start {0})'},
+         attr_assign={('ptr', 'end'): '(set_end {val} {cur})'},
+         patterns=[('len(_l)', {'_l': 'line'}, '(Z.of_nat (length (fst {_l})))', 'Z'),
+                   ("_l.decode('utf-8')", {'_l': 'line'}, '{_l}', 'dline'),
+                   ("_l.startswith('#')", {'_l': 'dline'}, '(match snd {_l} with LComment => true | _ => false end)', 'bool'),
+                   ('GtfIO.line_to_seq_feature(_l)', {'_l': 'dline'}, '(snd {_l})', 'rec'),
+                   ("_r.type.lower() == 'gene'", {'_r': 'rec'}, '(match {_r} with LGene _ => true | _ => false end)', 'bool'),
+                   ('_r.gene_id', {'_r': 'rec'}, '(match {_r} with LGene g__ => g__ | _ => 0 end)', 'key'),
+                   ('_r.transcript_id', {'_r': 'rec'}, '(match {_r} with LRec t__ => t__ | _ => 0 end)', 'key'),
+                   ('_a != _b', {'_a': 'opt key', '_b': 'key'},
+                    '(negb (match {_a} with Some k__ => k__ =? {_b} | None => false end))', 'bool'),
+                   ('GenePointer(handle, _k, _s, _e, _r.source)', {'_k': 'key', '_s': 'Z', '_e': 'Z', '_r': '*'},
+                    '(mkPtr true {_k} {_s} {_e} [])', 'ptr'),
+                   ('TranscriptPointer(handle, _k, _s, _e, _r.source)', {'_k': 'key', '_s': 'Z', '_e': 'Z', '_r': '*'},
+                    '(mkPtr false {_k} {_s} {_e} [])', 'ptr')],
+         stmt_patterns=[('cur_gene_pointer.transcripts.add(_t)', {'_t': 'key'}, 'cur_gene_pointer',
+                         '(option_map (add_tx {_t}) {cur})', 'opt ptr')]))
+
+# (12) aa/VariantPeptidePool.py VariantPeptidePool.filter, the WHOLE function (miscleavage window, denylist flag,
+#      per-entry decision loop, `if keep:`)                              vs mapM Filter.filter_pep + flat_map opt_list
+#      self.peptides (a set; the deduplicated pool) is the parameter `peps`; a peptide is the model's (sequence, entries).
+#      Trusted, in addition to target (9): find_all_enzymatic_cleave_sites(enzyme, exception) with the pinned
+#      `exception = 'trypsin_exception' if enzyme == 'trypsin' else None` is Digest.sites (o_rule o) (o_exc o);
+#      from_variant_peptide_minimal(peptide) gives the entries; the label statements do not influence which entries are
+#      kept; `filtered_pool.peptides.add(peptide)` records (sequence, keep).
+FILTER9 = [t for t in TARGETS if t['coq_name'] == 'py_keep_list'][0]
+TARGETS.append(
+    dict(FILTER9, coq_name='py_filter',
+         args=[('o', 'opts'), ('peps', 'list pep')],
+         types={'rows': '(list (str * Z))', 'coding': '(list str)', 'pep': 'pep', 'seqs': '(list seq)'},
+         params=dict(FILTER9['params'], denylist=('(o_deny o)', 'opt seqs')),
+         pre_env={}, slice=None, slice_pre=[], slice_post=[],
+         var_types={'keep': 'list entry', 'filtered_pool': 'list pep'},
+         ret_ty='list pep', res_ty='res (list pep)', ok='(Ok {})', stub='Err EFuel',
+         errors={'IndexError': '(Err EIndex)', 'UnboundLocalError': '(Err EFuel)', 'TypeError': '(Err EType)'}, raises=[],
+         ignore_stmts=[r'^label_delimiter = ', r'^label = ', r'^peptide\.description = '],
+         stmt_rewrites=[('filtered_pool = VariantPeptidePool()', 'filtered_pool = []'),
+                        ("exception = 'trypsin_exception' if enzyme == 'trypsin' else None", 'pass'),
+                        ('filtered_pool.peptides.add(peptide)', 'filtered_pool = filtered_pool + [kept__(peptide, keep)]')],
+         patterns=FILTER9['patterns'] + [
+             ('self.peptides', {}, 'peps', 'list pep'),
+             ('any((x is not None for x in miscleavage_range))', {},
+              '(negb (match o_lo o, o_hi o with None, None => true | _, _ => false end))', 'bool'),
+             ('miscleavage_range[0]', {}, '(o_lo o)', 'optZ'),
+             ('miscleavage_range[1]', {}, '(o_hi o)', 'optZ'),
+             ('_p.find_all_enzymatic_cleave_sites(enzyme, exception)', {'_p': 'pep'},
+              '(sites (o_rule o) (o_exc o) (fst {_p}))', 'list nat'),
+             ('VariantPeptideInfo.from_variant_peptide_minimal(_p)', {'_p': 'pep'}, '(snd {_p})', 'list entry'),
+             ('_p.seq in denylist', {'_p': 'pep'},
+              '(match o_deny o with Some l__ => mem_seq (fst {_p}) l__ | None => false end)', 'bool'),
+             ('[kept__(_p, _k)]', {'_p': 'pep', '_k': 'list entry'}, '[(fst {_p}, {_k})]', 'list pep')]))
+
+# ---------------------------------------------------------------------------------------------- C07 failure handling
+# (13) cli/call_variant_peptide.py call_variant_peptides_wrapper: the control flow (three try/except regions, success
+#      flags, skip / re-raise, `continue` in the circRNA handler, denylist update between the fusion and circRNA loops,
+#      order of add_peptide_anno)                                   vs Wrapper.wrapper shape_fixed (projected on anno, flags)
+#      Trusted: a per-unit caller is the model's call_unit (raises, or returns its raw map minus the extra denylist);
+#      in the fusion region ANY statement of the try body failing is the unit failing (the coordinate / pool statements
+#      before the call are ignored); the canonical denylist is the empty `extra`, denylist.update adds main_peptides;
+#      set(peptide_map.keys()) is Wrapper.keys; the pinned closure add_peptide_anno is Wrapper.add_peptide_anno;
+#      the graph bookkeeping (dgraphs / pgraphs) and logging do not influence annotations or flags.
+W_ADD = ("def add_peptide_anno(x: Dict[Seq, List[AnnotatedPeptideLabel]]):\n    for seq, seq_data in x.items():\n"
+         "        val = peptide_anno.setdefault(seq, {})\n        for metadata in seq_data:\n"
+         "            if metadata.label not in val:\n                val[metadata.label] = metadata")
+W_OPQ = {k: (None, 'opaque') for k in ['tx_id', 'variant_series', 'tx_seqs', 'gene_seqs', 'reference_data', 'pool',
+         'cleavage_params', 'noncanonical_transcripts', 'max_adjacent_as_mnv', 'truncate_sec', 'w2f_reassignment',
+         'backsplicing_only', 'save_graph', 'coding_novel_orf']}
+TARGETS.append(
+    dict(out='Py_wrapper', file='moPepGen/cli/call_variant_peptide.py', cls=None, func='call_variant_peptides_wrapper',
+         coq_name='py_wrapper', imports=['Model.Wrapper'], allow_try=True, allow_kwargs=True, tuple_first=True,
+         decorators=['common.timeout()'],      # the timeout decorator is outside the model (caller_reducer handles it)
+         args=[('skip', 'bool'), ('has_tx', 'bool'), ('inner', 'bool'), ('um', 'unit_'), ('fs', 'list unit_'), ('cs', 'list unit_')],
+         types={'seqs': '(list seq)', 'pmap': 'pmap', 'flags3': 'flags3', 'unit_': 'unit_', 'wres': '(pmap * flags3)'},
+         params=dict(W_OPQ, skip_failed=('skip', 'bool')),
+         var_types={'peptide_anno': 'pmap', 'main_peptides': 'opt seqs', 'denylist': 'seqs'},
+         ret_ty='wres', res_ty='res (pmap * flags3)', ok='(Ok {})', stub='Raise EInvalid',
+         reraise='(Raise EUnit)',
+         errors={'Exception': '(Raise EUnit)', 'NoneValue': '(Raise EUnbound)', 'UnboundLocalError': '(Raise EUnbound)'}, raises=[],
+         skip_defs={'add_peptide_anno': W_ADD},
+         ignore_stmts=[r'^logger', r'^dgraphs', r'^pgraphs', r'^exclude_variant_types = ', r'^donor_breakpoint_genomic = ',
+                       r'^donor_breakpoint_gene = ', r'^filtered_variants = ', r'^variant_pool'],
+         ignore_may_store=['variant_pool'],
+         stmt_rewrites=[('peptide_anno: Dict[Seq, Dict[str, AnnotatedPeptideLabel]] = {}', 'peptide_anno = []'),
+                        ('denylist = call_canonical_peptides(tx_id=tx_id, ref=reference_data, tx_seq=tx_seqs[tx_id], cleavage_params=cleavage_params, truncate_sec=truncate_sec, w2f=w2f_reassignment)',
+                         'denylist = []'),
+                        ('peptide_anno = {k: list(v.values()) for k, v in peptide_anno.items()}', 'pass'),
+                        ('return (peptide_anno, tx_id, dgraphs, pgraphs, success_flags)', 'return result__(peptide_anno, success_flags)')],
+         truthy={'opt seqs': '(match {0} with Some (_ :: _) => true | _ => false end)',
+                 'seqs': '(match {0} with _ :: _ => true | [] => false end)'},
+         patterns=[('variant_series.transcriptional', {}, 'has_tx', 'bool'),
+                   ('not noncanonical_transcripts or variant_series.has_any_alternative_splicing()', {}, 'inner', 'bool'),
+                   ('variant_series.fusion', {}, 'fs', 'list unit_'),
+                   ('variant_series.circ_rna', {}, 'cs', 'list unit_'),
+                   ('(True, True, True)', {}, '(true, true, true)', 'flags3'),
+                   ('(False, _f[1], _f[2])', {'_f': 'flags3'}, '(clear_flag 0 {_f})', 'flags3'),
+                   ('(_f[0], False, _f[2])', {'_f': 'flags3'}, '(clear_flag 1 {_f})', 'flags3'),
+                   ('(_f[0], _f[1], False)', {'_f': 'flags3'}, '(clear_flag 2 {_f})', 'flags3'),
+                   ('set(_m.keys())', {'_m': 'pmap'}, '(keys {_m})', 'seqs'),
+                   ('result__(_a, _f)', {'_a': 'pmap', '_f': 'flags3'}, '({_a}, {_f})', 'wres'),
+                   ('call_peptide_main(tx_id=_a1, tx_variants=_a2, variant_pool=_a3, ref=_a4, tx_seqs=_a5, gene_seqs=_a6, cleavage_params=_a7, max_adjacent_as_mnv=_a8, truncate_sec=_a9, w2f=_b1, denylist=_d, save_graph=_b2, coding_novel_orf=_b3)',
+                    dict({k: '*' for k in ['_a1', '_a2', '_a3', '_a4', '_a5', '_a6', '_a7', '_a8', '_a9', '_b1', '_b2', '_b3']}, _d='seqs'),
+                    '(call_unit um {_d})', 'opt:Exception:pmap'),
+                   ('call_peptide_fusion(variant=_v, variant_pool=_a3, ref=_a4, tx_seqs=_a5, gene_seqs=_a6, cleavage_params=_a7, max_adjacent_as_mnv=_a8, w2f_reassignment=_b1, denylist=_d, save_graph=_b2, coding_novel_orf=_b3)',
+                    dict({k: '*' for k in ['_a3', '_a4', '_a5', '_a6', '_a7', '_a8', '_b1', '_b2', '_b3']}, _d='seqs', _v='unit_'),
+                    '(call_unit {_v} {_d})', 'opt:Exception:pmap'),
+                   ('call_peptide_circ_rna(record=_v, variant_pool=_a3, gene_seqs=_a6, cleavage_params=_a7, max_adjacent_as_mnv=_a8, w2f_reassignment=_b1, denylist=_d, save_graph=_b2, backsplicing_only=_b3)',
+                    dict({k: '*' for k in ['_a3', '_a6', '_a7', '_a8', '_b1', '_b2', '_b3']}, _d='seqs', _v='unit_'),
+                    '(call_unit {_v} {_d})', 'opt:Exception:pmap')],
+         stmt_patterns=[('add_peptide_anno(_m)', {'_m': 'pmap'}, 'peptide_anno', '(add_peptide_anno {_m} {cur})'),
+                        ('denylist.update([str(x) for x in _m])', {'_m': 'seqs'}, 'denylist', '({cur} ++ {_m})')]))
